@@ -34,6 +34,7 @@ def run_scenarios(scs, release=False):
     exe = build_runner(release)
     r = subprocess.run([exe], input=json.dumps(scs), capture_output=True, text=True)
     if r.returncode != 0:
+        open(os.path.join(CACHE, 'last_failed_scenarios.json'), 'w').write(json.dumps(scs, indent=1))
         raise RuntimeError('replay runner failed: ' + r.stderr[-2000:])
     return [json.loads(l) for l in r.stdout.strip().split('\n') if l.strip()]
 
@@ -230,8 +231,13 @@ def scenario(prog, sc, model):
         smart.append([conc.string(t), {'allowance': {'owner': conc.string(o), 'spender': conc.string(s)}},
                       {'allowance': str(conc.num(amt)), 'expires': {'never': {}}}])
     for addr, q, resp in getattr(w, 'smart_table', []):
-        smart.append([conc.string(addr) if isinstance(addr, Str) else addr, sd.tj(conc.val(q)),
-                      sd.tj(conc.val(resp)) if not isinstance(resp, dict) else resp])
+        if isinstance(resp, Opaque) and resp.tag == 'query_error': rj = {'__error__': 'query failed'}
+        else: rj = sd.tj(conc.val(resp)) if not isinstance(resp, dict) else resp
+        smart.append([conc.string(addr) if isinstance(addr, Str) else addr, sd.tj(conc.val(q)), rj])
+    for a, d, x in w.bank:
+        if not (0 <= conc.num(x) < 2 ** 128): raise ValueError('pre-state bank balance out of u128 range: the harness pre-state is under-constrained')
+    for t, h, x in w.cw20:
+        if not (0 <= conc.num(x) < 2 ** 128): raise ValueError('pre-state cw20 balance out of u128 range: the harness pre-state is under-constrained')
     env = conc.val(sc['env']); info = conc.val(sc['info']) if sc.get('info') is not None else None
     out = dict(contract=sc['contract'], entry=sc['entry'], storage=storage_dump(prog, w, conc),
                bank=[[conc.string(a), conc.string(d), str(conc.num(x))] for a, d, x in w.bank],
